@@ -1311,6 +1311,12 @@ def parse_const(v, ty):
         return lit_int(int(m.group(1)))
     if v in ("true", "false"):
         return ("lit", "bool", v == "true")
+    mm = re.match(r"^(?:std::|core::)?(u8|u16|u32|u64|usize|i8|i16|i32|i64|isize)::(MAX|MIN)$", v)
+    if mm:
+        bits = {"u8": 8, "u16": 16, "u32": 32, "u64": 64, "usize": 64, "i8": 8, "i16": 16, "i32": 32, "i64": 64, "isize": 64}[mm.group(1)]
+        if mm.group(1).startswith("u"):
+            return lit_int((1 << bits) - 1 if mm.group(2) == "MAX" else 0)
+        return lit_int((1 << (bits - 1)) - 1 if mm.group(2) == "MAX" else -(1 << (bits - 1)))
     return ("lit", "const", v)
 
 
